@@ -80,6 +80,9 @@ struct Stats {
 	deagg_linked: u64,
 	deagg_linked_valid: u64,
 	deagg_linked_invalid: u64,
+	/// de-aggregations in shapes outside the hypothesis (foreign / repeated / superset operands,
+	/// a single transaction or the empty transaction as the multi-kernel side): shape -> outcome
+	deagg_odd: BTreeMap<String, u64>,
 	validates: u64,
 	validate_err: BTreeMap<String, u64>,
 	cuts: u64,
@@ -175,6 +178,21 @@ fn err_name(e: &TxError) -> String {
 		TxError::TooHeavy => "TooHeavy".to_string(),
 		TxError::InvalidNRDRelativeHeight => "NrdDup".to_string(),
 		other => format!("{:?}", other).replace(' ', ""),
+	}
+}
+
+/// `Transaction::validate` as the driver's `val` op reads it: the gate that refused, or `later` for
+/// everything behind the gates (range proofs, kernel signatures, kernel sums)
+fn val_str(r: Result<(), TxError>) -> String {
+	match r {
+		Ok(()) => "ok".to_string(),
+		Err(e) => {
+			let n = err_name(&e);
+			match n.as_str() {
+				"TooHeavy" | "NrdDup" | "Sort" | "Dup" | "CutThrough" | "OutputFeatures" | "KernelFeatures" => format!("err:{}", n),
+				_ => "later".to_string(),
+			}
+		}
 	}
 }
 
@@ -800,6 +818,9 @@ fn run_case_inner(
 				Err(e) => format!("err:{}", err_name(&e)),
 			};
 			out.line(&format!("tx vread {} {}", case_no, i), &r);
+			// Transaction::validate: the same gates in ANOTHER order (verify_features first), then
+			// range proofs, kernel signatures and the kernel sums (answered `later`)
+			out.line(&format!("tx val {} {}", case_no, i), &val_str(t.validate(Weighting::AsTransaction)));
 		}
 	}
 
@@ -1146,6 +1167,112 @@ fn run_case_inner(
 				}
 			}
 		}
+	}
+
+	// ---- deaggregate in the shapes its callers never use (rarely taken branches): the multi-kernel
+	// side is the aggregate of a PART of the operands, a single transaction (aggregate's one-operand
+	// shortcut keeps the input representation) or the empty transaction; the known list holds a
+	// transaction that is not inside (foreign), the same transaction twice, or more than was
+	// aggregated. No oracle: the model's answer is compared (deagg lines), outcomes in a #STAT.
+	if n >= 2 {
+		let h = (n / 2).max(1);
+		let part: Vec<usize> = (0..h).collect();
+		let foreign = n - 1;
+		let mut with_foreign = part.clone();
+		with_foreign.push(foreign);
+		let mut all_plus = (0..n).collect::<Vec<usize>>();
+		all_plus.push(0);
+		let shapes: Vec<(&str, Vec<usize>, Vec<usize>)> = vec![
+			("part-minus-part-and-foreign", part.clone(), with_foreign),
+			("part-minus-foreign", part.clone(), vec![foreign]),
+			("part-minus-repeated", part.clone(), vec![0, 0]),
+			("part-minus-all", part.clone(), (0..n).collect()),
+			("all-minus-all-and-repeat", (0..n).collect(), all_plus),
+			("single-minus-itself", vec![0], vec![0]),
+			("single-minus-nothing", vec![foreign], vec![]),
+			("single-minus-foreign", vec![0], vec![foreign]),
+			("empty-minus-one", vec![], vec![0]),
+			("empty-minus-nothing", vec![], vec![]),
+		];
+		for (shape, mk_idx, sub) in shapes {
+			let mtx: Vec<Transaction> = mk_idx.iter().map(|i| txs[*i].clone()).collect();
+			let mk = match transaction::aggregate(&mtx) {
+				Ok(m) => m,
+				Err(_) => {
+					*w.st.deagg_odd.entry(format!("{}: mk does not aggregate", shape)).or_insert(0) += 1;
+					continue;
+				}
+			};
+			let stx: Vec<Transaction> = sub.iter().map(|i| txs[*i].clone()).collect();
+			let r = catch(std::panic::AssertUnwindSafe(|| transaction::deaggregate(mk.clone(), &stx)));
+			match r {
+				Ok(r) => {
+					w.st.deaggs += 1;
+					let outcome = match &r {
+						Ok(d) => format!("ok(in={},out={},kern={},offset {})", if d.inputs().is_empty() { "0" } else { "+" }, if d.outputs().is_empty() { "0" } else { "+" }, if d.kernels().is_empty() { "0" } else { "+" }, if d.offset.is_zero() { "zero" } else { "non-zero" }),
+						Err(e) => format!("err:{}", err_name(e)),
+					};
+					*w.st.deagg_odd.entry(format!("{}: {}", shape, outcome)).or_insert(0) += 1;
+					out.line(&format!("tx deagg {} {} {}", case_no, idx_str(&mk_idx), idx_str(&sub)), &ids.res_str(&r));
+				}
+				Err(_) => oracle_fail(out, &mut w.st, &format!("case {}: deaggregate(aggregate {:?}, {:?}) panicked ({})", case_no, mk_idx, sub, shape)),
+			}
+		}
+	}
+
+	// ---- ... and a multi-kernel side that carries every element TWICE (Transaction::new sorts but
+	// does not de-duplicate): the `!xs.contains(x)` half of the three loops. Defined as transaction n.
+	if n >= 2 {
+		let t0 = &txs[0];
+		let ins: Vec<CommitWrapper> = t0.inputs().into();
+		let mut ins2 = ins.clone();
+		ins2.extend_from_slice(&ins);
+		let mut outs2 = t0.outputs().to_vec();
+		outs2.extend_from_slice(t0.outputs());
+		let mut k2 = t0.kernels().to_vec();
+		k2.extend_from_slice(t0.kernels());
+		let dup = Transaction::new(Inputs::from(ins2.as_slice()), &outs2, &k2).with_offset(t0.offset.clone());
+		let body = ids.body_str(&dup.inputs(), dup.outputs(), dup.kernels());
+		out.line(&format!("tx def {} {} {} {}", case_no, n, hex(dup.offset.as_ref()), body), "-");
+		for (shape, sub) in [("doubled-minus-nothing", vec![]), ("doubled-minus-foreign", vec![n - 1]), ("doubled-minus-itself", vec![0usize])] {
+			let stx: Vec<Transaction> = sub.iter().map(|i| txs[*i].clone()).collect();
+			match catch(std::panic::AssertUnwindSafe(|| transaction::deaggregate(dup.clone(), &stx))) {
+				Ok(r) => {
+					w.st.deaggs += 1;
+					let outcome = match &r {
+						Ok(d) => {
+							let part = |a: usize, b: usize| if a == 0 { "none" } else if 2 * a == b { "each once" } else if a == b { "all" } else { "some" };
+							format!("ok(inputs {}, outputs {}, kernels {})", part(d.inputs().len(), dup.inputs().len()), part(d.outputs().len(), dup.outputs().len()), part(d.kernels().len(), dup.kernels().len()))
+						}
+						Err(e) => format!("err:{}", err_name(e)),
+					};
+					*w.st.deagg_odd.entry(format!("{}: {}", shape, outcome)).or_insert(0) += 1;
+					out.line(&format!("tx deagg {} {} {}", case_no, idx_str(&[n]), idx_str(&sub)), &ids.res_str(&r));
+				}
+				Err(_) => oracle_fail(out, &mut w.st, &format!("case {}: deaggregate of a transaction with doubled elements panicked ({})", case_no, shape)),
+			}
+		}
+		// ---- a transaction that carries a coinbase item (defined as transaction n+1): validate and
+		// validate_read run the same gates in a different order - verify_features is the FIRST gate
+		// of validate and the LAST of validate_read - so they name different errors when a body
+		// gate fails as well (here: the reward output spent by an input of the same transaction)
+		let t0 = Transaction { offset: txs[0].offset.clone(), body: txs[0].body.clone().replace_inputs(Inputs::CommitOnly(txs[0].inputs().into())) };
+		let (shape, cbt) = match case_no % 4 {
+			0 => ("coinbase output", t0.with_output(rout.clone())),
+			1 => ("coinbase output spent inside", t0.with_output(rout.clone()).with_input(Input::new(OutputFeatures::Coinbase, rout.commitment()))),
+			2 => ("coinbase kernel", t0.with_kernel(rkern.clone())),
+			_ => ("coinbase kernel and output spent inside", t0.with_kernel(rkern.clone()).with_output(rout.clone()).with_input(Input::new(OutputFeatures::Coinbase, rout.commitment()))),
+		};
+		let body = ids.body_str(&cbt.inputs(), cbt.outputs(), cbt.kernels());
+		out.line(&format!("tx def {} {} {} {}", case_no, n + 1, hex(cbt.offset.as_ref()), body), "-");
+		let vr = match cbt.validate_read() {
+			Ok(()) => "ok".to_string(),
+			Err(e) => format!("err:{}", err_name(&e)),
+		};
+		let vv = val_str(cbt.validate(Weighting::AsTransaction));
+		out.line(&format!("tx vread {} {}", case_no, n + 1), &vr);
+		out.line(&format!("tx val {} {}", case_no, n + 1), &vv);
+		*w.st.deagg_odd.entry(format!("tx with a {}: validate={} validate_read={}", shape, vv, vr)).or_insert(0) += 1;
 	}
 
 	// ---- cut_through on raw slices (with duplicates)
@@ -1531,6 +1658,48 @@ fn run_case_inner(
 						if !same {
 							oracle_fail(out, &mut w.st, &format!("case {}: hydrated block differs from the original (grouping {}, nonce {}): {} vs {}", case_no, groups_str(&groups), cb.nonce, ids.body_str(&hb.inputs(), hb.outputs(), hb.kernels()), ids.body_str(&b.inputs(), b.outputs(), b.kernels())));
 						}
+					}
+				}
+			}
+			// ---- hydrate_from with OTHER transactions than the block was built from (what a node's
+			// pool may hand over; the node validates afterwards): one transaction missing, one twice,
+			// none at all. No oracle; the model's answer is compared, outcomes in a #STAT line.
+			if n >= 2 {
+				let mut twice: Vec<Vec<usize>> = vec![vec![0]];
+				twice.extend((0..n).map(|i| vec![i]));
+				let shapes: Vec<(&str, Vec<Vec<usize>>)> = vec![
+					("last transaction missing", (0..n - 1).map(|i| vec![i]).collect()),
+					("first transaction twice", twice),
+					("no transaction", vec![]),
+				];
+				for (shape, groups) in shapes {
+					let inner: Vec<Transaction> = groups.iter().map(|g| txs[g[0]].clone()).collect();
+					let lhs = format!("tx hydrate {} 0 {}", case_no, groups_str(&groups));
+					w.st.hydrates += 1;
+					match catch(std::panic::AssertUnwindSafe(|| Block::hydrate_from(cb0.clone(), &inner))) {
+						Ok(Err(e)) => {
+							*w.st.deagg_odd.entry(format!("hydrate_from, {}: err:{}", shape, block_err_name(&e))).or_insert(0) += 1;
+							out.line(&lhs, &format!("err:{}", block_err_name(&e)));
+						}
+						Ok(Ok(hb)) => {
+							let hi_: Vec<CommitWrapper> = hb.inputs().into();
+							let bi: Vec<CommitWrapper> = b.inputs().into();
+							let same = hb.header.hash() == b.header.hash()
+								&& hb.header.total_kernel_offset == b.header.total_kernel_offset
+								&& hi_ == bi && hb.outputs() == b.outputs()
+								&& hb.kernels() == b.kernels();
+							*w.st.deagg_odd.entry(format!("hydrate_from, {}: {}", shape, if same { "the block" } else { "another block" })).or_insert(0) += 1;
+							out.line(
+								&lhs,
+								&format!(
+									"ok {} {} {}",
+									if same { "same" } else { "diff" },
+									hex(hb.header.total_kernel_offset.as_ref()),
+									ids.body_str(&hb.inputs(), hb.outputs(), hb.kernels())
+								),
+							);
+						}
+						Err(_) => oracle_fail(out, &mut w.st, &format!("case {}: hydrate_from panicked ({})", case_no, shape)),
 					}
 				}
 			}
@@ -2766,6 +2935,7 @@ fn main() {
 		"#STAT aggregate: ok={} err={:?} cut-through pairs (flat)={} permutations={} groupings={} (inner error {}) validate runs={} validate errors={:?}",
 		st.agg_ok, st.agg_err, st.cut_pairs, st.perms, st.groupings, st.group_inner_err, st.validates, st.validate_err
 	));
+	out.raw(&format!("#STAT deaggregate in odd shapes (foreign / repeated / superset known list, single or empty multi-kernel side; model-compared): {:?}", st.deagg_odd));
 	out.raw(&format!(
 		"#STAT deaggregate: runs={} errors={:?} remainder-oracle evaluated={}; with a spend link between the known subset and the remainder (result = remainder minus both ends of every link, checked)={} (result validates {}, does not validate {}); cut_through direct: runs={} errors={}",
 		st.deaggs, st.deagg_err, st.deagg_oracle_checked, st.deagg_linked, st.deagg_linked_valid, st.deagg_linked_invalid, st.cuts, st.cut_err
